@@ -23,11 +23,12 @@ def obligations(tier):
     for ctx in range(5):
         obs.append(Ob("C02.charref.leading-zeros/ctx%d" % ctx, "crosshair", "harness.C14:numeric_leading_zeros", T, param={"ctx": ctx, "zmax": 12 if q else 40}, bounds="0..%d leading zeros + class digit + '1' + optional ';' in context %d" % (12 if q else 40, ctx), encodes=[TOK + "consumeNumberEntity", TOK + "consumeEntity"]))
     for (ci, state), prefixes in sorted(cat.items()):
-        use = prefixes[:1] if q else prefixes
+        use = prefixes[:1] if (q or ci != 0) else prefixes[:2]
         for n, p in enumerate(use):
             cfg = C02.CONFIGS[ci]
-            k = K - 1 if state in ("entityDataState", "characterReferenceInRcdata") else K     # '&' + K characters through the entity trie: decided under C14
+            kk = K if (q or ci == 0) else 2       # thorough: 3 characters from the data-state configuration's pre-states, 2 elsewhere (sized by wall time)
+            k = kk - 1 if state in ("entityDataState", "characterReferenceInRcdata") else kk     # '&' + K characters through the entity trie: decided under C14
             obs.append(Ob("C02.step/%s/cfg%d/%d" % (state, ci, n), "crosshair", "harness.C02:step", T, param={"k": k, "cfg": ci, "prefix": p},
-                          bounds="pre-state: %s after %r (start %s, last start tag %r, CDATA %s); continuation: any string of <= %d Unicode characters, then end of input" % (state, p, cfg[1], cfg[2], "allowed" if cfg[3] else "not allowed", K),
+                          bounds="pre-state: %s after %r (start %s, last start tag %r, CDATA %s); continuation: any string of <= %d Unicode characters, then end of input" % (state, p, cfg[1], cfg[2], "allowed" if cfg[3] else "not allowed", k),
                           encodes=[TOK + state, TOK + "emitCurrentToken", TOK + "consumeEntity", "html5lib/_inputstream.py:HTMLUnicodeInputStream.charsUntil"]))
     return obs
